@@ -13,6 +13,30 @@ CLAIMED = {
         "Trusted: Lean kernel, the hand model Model.ModelParse (correspondence-validated), the regex transcription (RegexBT), solver binaries as producers of test outputs. End-to-end replay of counterexamples inherits the C01 stage coverage",
         "DESIGN.md §4 C04",
     ),
+    "C05": (
+        "Lean 4 theorems over arbitrary lists of paths and arbitrary completion schedules (pass_iff, precedence_order, perm_invariant with and without early exit, exit_nonzero_iff, timeout_never_unsat, garbage_is_err, and decide-proved counterexamples for the three recorded deviations) on a model whose verdict chain and dispatch tables are regenerated from __main__.py/solve.py each run; differential run of the real run_contract/_main on hand-assembled artifacts with a scripted stub solver controlling replies and completion order",
+        "Proof of the decision logic for all numbers of paths and all permutations of completion order; the thread hand-off itself is C17's subject; three genuine deviations are recorded known findings with proved witnesses",
+        "Trusted: Lean kernel, Model.Verdict (hand model + extractor verdict.py that fails closed on the shape of run_test, from_result, solve_low_level, _main), the stub-solver harness; --solver-threads is over-approximated (all schedules)",
+        "DESIGN.md §4 C05",
+    ),
+    "C07": (
+        "Lean 4 refinement proof: every ByteVec method refines the flat zero-extended byte array (refines_* per method with WF preservation and error branches), lifted by induction over arbitrary operation histories on any number of objects (history_refines), plus copy_independent; the aliasing variant of the model is proved NOT to refine (decide witnesses) and the live variant is detected at run time; differential run of the real ByteVec / State / Message wrappers against the model, the spec and a Python flat array after every operation",
+        "Full proof on the model for all histories; tie by correspondence (exhaustive length<=2 histories over a 66-operation alphabet + sampled length 3 + 4000 random histories of length <= 40 per quick run, with layout comparison)",
+        "Trusted: Lean kernel, Model.ByteVec (hand model), sortedcontainers, z3 Extract/Concat (bytes compared as canonical tokens); a ByteVec passed whole to its own append/set_slice and negative offsets are stated exclusions",
+        "DESIGN.md §4 C07",
+    ),
+    "C08": (
+        "Lean 4 theorems: load_after_store / load_returns_last_write by induction on arbitrary store histories against a flat storage spec, decode_faithful under HashIdeal for the layout grammar (both layouts; generic same-shape iff is partial), select_sound, transient_fresh, precomputed_tables_ok (all 768 table entries are Keccak of their preimages, kernel-evaluated), OffsetMap lookup theorems; tables regenerated from hashes.py each run; differential run of storage programs on the real SEVM (both layouts) against the Lean reference EVM with real Keccak, and of the real decoder/OffsetMap against the Lean models",
+        "Proof for location terms of the stated layout grammar under the documented HashIdeal assumption; outside the grammar the code raises (stuck, fail-safe); normalize's re-association is a parameter; cross-shape aliasing is shown impossible to decide by decode alone (proved counterexample) and relies on Solidity typing",
+        "Trusted: Lean kernel, Spec.Keccak (validated against eth_hash each run), Model.Storage/Model.OffsetMap (hand models, correspondence-validated), z3 term shapes",
+        "DESIGN.md §4 C08",
+    ),
+    "C14": (
+        "Lean 4 theorems: prank_refines (the Model's (msg.sender, tx.origin) per frame equals the Foundry state machine for ALL histories without console calls, by induction with a frame-stack invariant; the console case is a proved counterexample = recorded finding), prank_scope_*, prank_no_override, create_width_range_* / create_fresh for every encoder, state_cheats_exact; the lookup exclusion list and resolve_prank call sites are regenerated from the source; differential run of exhaustive short prank histories and random call trees, every state cheatcode and every create*/random* selector on the real SEVM against Model, Spec and the reference EVM",
+        "Full proof for Prank and the encoders on the model; state cheatcodes are proved on an abstract state and tied by differential runs; reachability of every bytesN payload is sampled, not proved",
+        "Trusted: Lean kernel, Spec.Foundry (the Foundry book semantics as read by us; DELEGATECALL/origin choices are stated assumptions), Model.Prank, extractor prank.py",
+        "DESIGN.md §4 C14",
+    ),
     "C06": (
         "Lean 4 theorems over an executable model of bitvec.py / the word-instruction cases of SEVM.run (op_exact: every instruction, every operand representation, every sound simplifier, every standard interpretation), model tied to the code by a differential run of one-instruction SEVM executions against the Lean model and the Lean EVM spec",
         "Proof on the model for all 2^256 operand values and all representation combinations (16 theorems: op_exact for all 25 instructions, abstraction_axioms_valid, fast_eq_slow, bool coercions, exp_by_const, promptness bound); the tie to the code is a correspondence run (about 10^4 cases per quick run, all 25 instructions x 9 operand representations, boundary + harvested-literal + random values, two valuations per symbolic case) plus probes for promptness and for the shared TRUE/FALSE singletons",
